@@ -981,3 +981,34 @@ pub fn budget_many() {
     vcover!(true, "cover:budget_exhausted");
     core::mem::forget(f);
 }
+
+/// An EMPTY collection whose ready queue still holds more stale entries (wakers
+/// of finished children invoked after their completion) than the per-poll
+/// budget: the poll must answer `Ready(None)` at once - never `Pending` - and
+/// poll nothing (C02 "None iff empty", C05). Fully concrete state.
+pub fn stale_many() {
+    const N: usize = BUDGET + 1;
+    gh::reset();
+    #[cfg(futures_buffered_verif_model)]
+    v::model_waker::set_big_queue(true);
+    let gh = g();
+    let t = nd::below(2) as usize;
+    let w = gh::task_waker(t);
+    let mut q = [QEntry { slot: 0, inflight: false }; N];
+    let mut k = 0;
+    while k < N {
+        q[k].slot = k;
+        k += 1;
+    }
+    let reg = nd::flag();
+    let mut f: FuturesUnorderedBounded<Idle> = v::fub_from_parts(N, |i| Err(i + 1), 0, N, &q, &w, reg);
+    gh.task_wakes = [0; 2];
+    vassert!(f.is_empty() && f.len() == 0, "C15:len/is_empty wrong on an empty collection");
+    let mut cx = Context::from_waker(&w);
+    let r = Pin::new(&mut f).poll_next(&mut cx);
+    vassert!(matches!(r, Poll::Ready(None)), "C02:an empty collection (stale wake-ups queued) did not answer Ready(None)");
+    vassert!(gh.total_child_polls == 0, "C05:a vacated slot was polled");
+    vassert!(gh.task_wakes[0] == 0 && gh.task_wakes[1] == 0, "C14:an empty collection woke a task");
+    vcover!(true, "cover:stale_many");
+    core::mem::forget(f);
+}
